@@ -2891,6 +2891,13 @@ class Phonopy:
         if self._mesh is None:
             msg = "run_mesh has to be done before run_thermal_properties."
             raise RuntimeError(msg)
+        if is_projection:
+            if not self._mesh.with_eigenvectors:
+                msg = "run_mesh has to be done with with_eigenvectors=True."
+                raise RuntimeError(msg)
+            if np.prod(self._mesh.mesh_numbers) != len(self._mesh.ir_grid_points):
+                msg = "run_mesh has to be done with is_mesh_symmetry=False."
+                raise RuntimeError(msg)
 
         tp = ThermalProperties(
             self._mesh,
